@@ -13,6 +13,8 @@ CASES[h7_comment_and_blank]="sed -i 's/self.store.swap(i, largest);/\\/\\/ excha
 CASES[h8_size_dec_first]="perl -0pi -e 's/let head: Index = self.heap.swap_remove\\(position.0\\);\\n(\\s*)self.size -= 1;/self.size -= 1;\\n\$1let head: Index = self.heap.swap_remove(position.0);/' src/store.rs"
 # further cases live in tools/harmless/<name>.py (run inside the scratch worktree)
 for f in tools/harmless/*.py; do n=$(basename $f .py); CASES[$n]="python3 /verif/$f"; done
+# ... and behaviour-preserving refactorings written by independent sub-agents, as patches
+for f in tools/harmless/*.diff; do [ -e "$f" ] || continue; n=$(basename $f .diff); CASES[$n]="git apply /verif/$f"; done
 sel=("$@"); [ ${#sel[@]} -eq 0 ] && sel=("${!CASES[@]}")
 for c in "${sel[@]}"; do
   W=/tmp/pq-harmless.$c; git -C /repo worktree add -q --detach $W HEAD || continue
